@@ -406,15 +406,27 @@ func (ct *c19ctl) upload(b *c19blob) error {
 	ct.mu.Unlock()
 	// uploads reach a sync source the ways they do in a server: verified (the upload handlers), unverified (what a
 	// replica, the file writer and the packed / encrypting stores use for blobs they made themselves), or through a replica
+	// ... or through the routing wrapper a stock configuration puts in front of the store the syncs read from
+	// (cond: /bs-and-maybe-also-index/ -> /bs/). (shard hands a blob to its sub-store without telling that store's hub:
+	// a sync reading from one shard does not hear of uploads made through the shard wrapper; no configuration does that
+	// and no document promises it, so it is not among the upload paths.)
 	var err error
-	switch b.id % 3 {
+	switch b.id % 4 {
 	case 0:
 		_, err = blobserver.Receive(context.Background(), inc.src, b.ref, strings.NewReader(b.content))
 	case 1:
 		_, err = blobserver.ReceiveNoHash(context.Background(), inc.src, b.ref, strings.NewReader(b.content))
-	default:
+	case 2:
 		rep := replica.NewForTest([]blobserver.Storage{inc.src, &memory.Storage{}})
 		_, err = blobserver.Receive(context.Background(), rep, b.ref, strings.NewReader(b.content))
+	default:
+		ld := newLoader()
+		ld.set("/c19src/", inc.src)
+		var front blobserver.Storage
+		front, err = blobserver.CreateStorage("cond", ld, jsonconfig.Obj{"write": map[string]any{"if": "isSchema", "then": "/c19src/", "else": "/c19src/"}, "read": "/c19src/"})
+		if err == nil {
+			_, err = blobserver.Receive(context.Background(), front, b.ref, strings.NewReader(b.content))
+		}
 	}
 	ct.mu.Lock()
 	defer ct.mu.Unlock()
@@ -452,10 +464,68 @@ func (ct *c19ctl) settle(max time.Duration) {
 	}
 }
 
+// ---- fullSyncOnStart: the handler first copies what the source already holds, then serves new uploads like any other ----
+func c19FullSyncOnStart(c *ctx) {
+	for round := 0; round < 2; round++ {
+		src, dst := &memory.Storage{}, &memory.Storage{}
+		ctxb := context.Background()
+		put := func(sto blobserver.Storage, content string) blob.Ref {
+			br := blob.RefFromString(content)
+			if _, err := blobserver.Receive(ctxb, sto, br, strings.NewReader(content)); err != nil {
+				c.rep.Notes = append(c.rep.Notes, "full sync upload: "+err.Error())
+			}
+			return br
+		}
+		var old []blob.Ref
+		for i := 0; i < 3+round*4; i++ {
+			old = append(old, put(src, fmt.Sprintf("held by the source before the sync starts %d %d %d", round, i, c.seed)))
+		}
+		ld := newLoader()
+		ld.set("/src/", src)
+		ld.set("/dst/", dst)
+		h, err := blobserver.CreateHandler("sync", ld, jsonconfig.Obj{"from": "/src/", "to": "/dst/", "queue": map[string]any{"type": "memory"}, "fullSyncOnStart": true})
+		if err != nil {
+			c.rep.Notes = append(c.rep.Notes, "sync with fullSyncOnStart: "+err.Error())
+			return
+		}
+		sh := h.(*server.SyncHandler)
+		has := func(refs []blob.Ref) bool {
+			n := 0
+			dst.StatBlobs(ctxb, refs, func(blob.SizedRef) error { n++; return nil })
+			return n == len(refs)
+		}
+		waitFor := func(refs []blob.Ref) bool {
+			for i := 0; i < 400; i++ {
+				if has(refs) {
+					return true
+				}
+				sh.VerifWake()
+				time.Sleep(10 * time.Millisecond)
+			}
+			return false
+		}
+		c.rep.SpecChecks++
+		c.count("scenarios", "fullSyncOnStart")
+		if !waitFor(old) {
+			c.violation(-1, "c19-fullsync-not-delivered", fmt.Sprintf("fullSyncOnStart: the %d blobs the source held at start-up are not all at the destination after 4 s", len(old)), nil)
+			continue
+		}
+		var fresh []blob.Ref
+		for i := 0; i < 3; i++ {
+			fresh = append(fresh, put(src, fmt.Sprintf("uploaded after the full sync %d %d %d", round, i, c.seed)))
+		}
+		c.rep.SpecChecks++
+		if !waitFor(fresh) {
+			c.violation(-1, "c19-not-delivered-after-fullsync", fmt.Sprintf("fullSyncOnStart: %d uploads acknowledged after the full sync of %d blobs are not at the destination after 4 s (the sync loop does not run)", len(fresh), len(old)), nil)
+		}
+	}
+}
+
 func runC19(c *ctx) {
 	c.rep.Rule = "scenarios over a sync handler created by CreateHandler(\"sync\") on instrumented source, destination and queue (shared rows survive restarts): 6-40 uploads (fresh, repeated, the zero-length blob, two concurrent uploads of one blob with the first one's queue.Set held), " +
 		"per-blob fault plans on source fetch (error, wrong size, corrupt bytes), destination write (error, wrong size), queue.Set / queue.Delete (error), crashes at chosen points (before queue.Set, before the destination write, before queue.Delete, before a fetch) and at random moments, restarts over the same queue, " +
 		"then faults stop and the handler must drain; one scenario with more than 1000 pending blobs (two copy batches); traces are replayed on the model, snapshots compared; ListMissingDestinationBlobs on random sorted enumerations; non-trivial = distinct trace with at least one fault or crash, or a merge with both missing and present blobs"
+	c19FullSyncOnStart(c)
 	nScen := c.n(40, 400)
 	for si := 0; si < nScen; si++ {
 		big := si == 0
